@@ -399,6 +399,10 @@ def run(prog, rep, tier):
     from ..flow import check_undefined_attrs
     rep.rule('ATTR-defined', 'every self.X read names an attribute bound somewhere in the class family')
     check_undefined_attrs(prog, rep, ['tenpy/networks/mpo.py'])
+    from ..labels import check_labels
+    rep.rule('LABEL-known', 'typestate of leg-label sets: literal labels used on a local tensor '
+             'whose complete label set is known (literal transposition, contractions) exist on it')
+    check_labels(prog, rep, ['tenpy/networks/mpo.py'])
     return rep.finish(
         level='other',
         explanation='Flag exhaustiveness over %d W-using MPO methods, flag forwarding of derived '
